@@ -64,6 +64,10 @@ func abGen(r *rand.Rand, live bool) *abInput {
 	return in
 }
 
+var abChooserOverride func([]int) int
+var abLastChoices []int
+var abLastEnabled [][]int
+
 func abRun(in *abInput, sink *CaseSink) {
 	arena := NewArena()
 	defer arena.Release()
@@ -181,7 +185,9 @@ func abRun(in *abInput, sink *CaseSink) {
 	}
 	r := rand.New(rand.NewSource(in.Seed))
 	var chooser func([]int) int
-	if len(in.Choices) > 0 {
+	if abChooserOverride != nil {
+		chooser = abChooserOverride
+	} else if len(in.Choices) > 0 {
 		chooser = replayChooser(in.Choices)
 	} else {
 		chooser = randomChooser(r, in.Sticky)
@@ -197,6 +203,8 @@ func abRun(in *abInput, sink *CaseSink) {
 		in.Choices = append(in.Choices, st[0])
 		tr = append(tr, fmt.Sprintf("(%d, %d, %d)", st[0], st[1], sch.Obs[i]))
 	}
+	abLastChoices = append([]int(nil), in.Choices...)
+	abLastEnabled = sch.Enabled
 	// observables at the end of the scheduled part
 	_, active, free, _, _, _ := ab.VerifState()
 	var q []string
@@ -305,6 +313,61 @@ func abRun(in *abInput, sink *CaseSink) {
 func init() {
 	commands["barrier"] = abCommand("C16", false)
 	commands["barrier-live"] = abCommand("C17", true)
+	commands["barrier-exh"] = abExhCommand("C16", false)
+	commands["barrier-live-exh"] = abExhCommand("C17", true)
+}
+
+func abExhCommand(prop string, live bool) func(a runArgs) error {
+	return func(a runArgs) error {
+		sink := NewSink(a.out, prop, "Tie.BarrierTie", a.seed)
+		sink.scope = "nat_scope"
+		sink.perFile = 150
+		sink.meta.Rule = "SYSTEMATIC: for each of a few small programs (2..3 goroutines, <= 3 Acquire/Release/FlushSession ops each) every schedule with at most 2 preemptions is executed (depth-first enumeration over the enabled threads at every step; capped per program) and replayed on the model; non-trivial = at least one flush and three steps inside Release/doCleanup windows"
+		top := rand.New(rand.NewSource(a.seed))
+		total := 0
+		for p := 0; p < a.n; p++ {
+			base := abGen(top, live)
+			if len(base.Progs) > 3 {
+				base.Progs = base.Progs[:3]
+			}
+			for i := range base.Progs {
+				if len(base.Progs[i]) > 3 {
+					// keep programs well-formed: cut, then drop releases of tokens that no longer exist
+					held := 0
+					var np []abOp
+					for _, o := range base.Progs[i][:3] {
+						switch o.Op {
+						case "acq":
+							held++
+							np = append(np, o)
+						case "rel":
+							if held > 0 {
+								if o.K >= held {
+									o.K = 0
+								}
+								held--
+								np = append(np, o)
+							}
+						default:
+							np = append(np, o)
+						}
+					}
+					base.Progs[i] = np
+				}
+			}
+			runs := Explore(2, 1500, func(ch func([]int) int) ([]int, [][]int) {
+				in := *base
+				in.Choices = nil
+				abChooserOverride = ch
+				abRun(&in, sink)
+				abChooserOverride = nil
+				return abLastChoices, abLastEnabled
+			})
+			total += runs
+		}
+		sink.meta.Extra = map[string]interface{}{"programs": a.n, "schedules": total}
+		return sink.Flush()
+	}
 }
 
 func abCommand(prop string, live bool) func(a runArgs) error {
